@@ -144,6 +144,13 @@ theorem BInv_insertUnique (prog : Program) (base M : DB) (b : Builder) (n : Node
     obtain ⟨m, h1, h2⟩ := hb.seen key id hk
     exact ⟨m, prefix_getElem? hp id m h1, h2⟩
 
+theorem BInv_insertIncomplete (prog : Program) (base M : DB) (b : Builder) (n : Node) (hb : BInv prog base M b)
+    (hn : NodeOK prog base M b.nodes b.nodes.length n) :
+    BInv prog base M (b.insertIncomplete n).2 ∧ Pre b (b.insertIncomplete n).2 ∧
+      (b.insertIncomplete n).2.nodes[(b.insertIncomplete n).1]? = some n := by
+  obtain ⟨⟨h1, h2⟩, h3, h4⟩ := BInv_insertUnique prog base M b n hb hn
+  exact ⟨⟨h1, h2⟩, h3, h4⟩
+
 theorem BInv_insert (prog : Program) (base M : DB) (b : Builder) (n : Node) (hb : BInv prog base M b)
     (hn : NodeOK prog base M b.nodes b.nodes.length n) (hneg : n.kind.isNeg = false) :
     BInv prog base M (b.insert n).2 ∧ Pre b (b.insert n).2 ∧
@@ -177,5 +184,15 @@ theorem BInv_insert (prog : Program) (base M : DB) (b : Builder) (n : Node) (hb 
         exact ⟨n, by simp, rfl, rfl, hneg⟩
       · obtain ⟨m, h1, h2⟩ := hb.seen key id hk
         exact ⟨m, prefix_getElem? hp id m h1, h2⟩
+
+theorem BInv_insertRule (prog : Program) (base M : DB) (b : Builder) (n : Node) (hb : BInv prog base M b)
+    (hn : NodeOK prog base M b.nodes b.nodes.length n) (hneg : n.kind.isNeg = false) :
+    BInv prog base M (b.insertRule n).2 ∧ Pre b (b.insertRule n).2 ∧
+      ∃ m, (b.insertRule n).2.nodes[(b.insertRule n).1]? = some m ∧ m.pred = n.pred ∧ m.args = n.args ∧ m.kind.isNeg = false := by
+  unfold Builder.insertRule
+  split
+  · obtain ⟨h1, h2, h3⟩ := BInv_insertIncomplete prog base M b n hb hn
+    exact ⟨h1, h2, n, h3, rfl, rfl, hneg⟩
+  · exact BInv_insert prog base M b n hb hn hneg
 
 end ILV.Prov
